@@ -186,6 +186,49 @@ def install(eng):
     def vec_push(e, st, fr, f, a, m):
         v = D(st, a[0]); eng.write_ref(st, a[0], v.push(a[1])); return one(st, UNIT)
     M(r'^std::vec::Vec::<.*>::push$', vec_push)
+    def vec_mut(name):
+        def h(e, st, fr, f, a, m):
+            outs = []
+            for s0 in densify(st, a[0]):
+                v = D(s0, a[0]); items = list(v.items)
+                def idx(x):
+                    if isz(x):
+                        x = z3.simplify(x)
+                        if not z3.is_int_value(x): raise Inconclusive('symbolic Vec index')
+                        return x.as_long()
+                    return int(x)
+                if name == 'pop':
+                    if not items: outs.append((s0, NONE())); continue
+                    r = items.pop(); eng.write_ref(s0, a[0], VecV.dense(items)); outs.append((s0, Some(r))); continue
+                if name == 'clear': eng.write_ref(s0, a[0], VecV([])); outs.append((s0, UNIT)); continue
+                if name == 'truncate': eng.write_ref(s0, a[0], VecV.dense(items[:idx(a[1])])); outs.append((s0, UNIT)); continue
+                if name == 'reverse': eng.write_ref(s0, a[0], VecV.dense(items[::-1])); outs.append((s0, UNIT)); continue
+                if name == 'insert':
+                    i = idx(a[1]); items.insert(i, a[2]); eng.write_ref(s0, a[0], VecV.dense(items)); outs.append((s0, UNIT)); continue
+                if name == 'swap':
+                    i, j_ = idx(a[1]), idx(a[2]); items[i], items[j_] = items[j_], items[i]; eng.write_ref(s0, a[0], VecV.dense(items)); outs.append((s0, UNIT)); continue
+                i = idx(a[1])
+                if i >= len(items):
+                    eng.add_obligation('panic', s0.pcz(), f'{name} index out of bounds', s0.frames[fr].body.name); continue
+                if name == 'remove': r = items.pop(i)
+                else:
+                    r = items[i]; items[i] = items[-1]; items.pop()
+                eng.write_ref(s0, a[0], VecV.dense(items)); outs.append((s0, r))
+            return outs
+        return h
+    for nm in ('swap_remove', 'remove', 'pop', 'clear', 'truncate', 'insert', 'reverse'):
+        M(r'^std::vec::Vec::<.*>::%s$' % nm, vec_mut(nm))
+    M(r'core::slice::<impl \[.*\]>::(swap|reverse)$', lambda e, st, fr, f, a, m: vec_mut(m.group(1))(e, st, fr, f, a, m))
+    def vec_retain(e, st, fr, f, a, m):
+        outs = []
+        for s0 in densify(st, a[0]):
+            v = D(s0, a[0]); ents = []
+            cur = s0
+            for x in v.items:
+                cur, keep = eng.call1(cur, fr, a[1], [eng.tmp_ref(cur, fr, x)]); ents.append((keep, x))
+            eng.write_ref(cur, a[0], VecV(ents)); outs.append((cur, UNIT))
+        return outs
+    M(r'^std::vec::Vec::<.*>::retain$', vec_retain)
     def dense(st, v, what):
         if isinstance(v, VecV) and not v.is_dense(): raise Inconclusive(f'{what} of guarded Vec')
         return v
